@@ -2923,7 +2923,17 @@ def _mutated_names(fn, root_of) -> set:
                 for y in set(holds.get(c2, ())) | set(elems.get(c2, ())):
                     work.append(("obj", y))
                     work.append(("in", y))
-    return mutated
+    # a name that is only ever bound by `name = other_name` is a pure alias: it needs no variable of its own (the environment keeps it as another
+    # spelling of `other_name`, mutations through it are mutations of that object, and a rebinding of `other_name` snapshots it)
+    stores, alias_stores = defaultdict(int), defaultdict(int)
+    for n in ast.walk(fn):
+        if isinstance(n, ast.Name) and isinstance(n.ctx, (ast.Store, ast.Del)):
+            stores[n.id] += 1
+        elif isinstance(n, ast.arg):
+            stores[n.arg] += 1
+        if isinstance(n, ast.Assign) and len(n.targets) == 1 and isinstance(n.targets[0], ast.Name) and isinstance(n.value, ast.Name):
+            alias_stores[n.targets[0].id] += 1
+    return {x for x in mutated if not (stores.get(x, 0) > 0 and stores.get(x) == alias_stores.get(x))}
 
 
 def _may_alias(e) -> set:
